@@ -75,7 +75,10 @@ AkiClause(t, pre) ==
   ELSE IF pre.aki # "none" THEN "AkiAppended"
   ELSE "AkiAbsent"
 
-\* RFC: value changed to match the final issuer; position and criticality stay
+\* RFC: value changed to match the final issuer; position and criticality stay.  The value is the pre-issuer's
+\* extension value as it stands (an opaque token here: keyIdentifier only, with authorityCertIssuer and
+\* authorityCertSerialNumber, or those two alone - the final certificate is issued by the same CA and carries
+\* that very value), not a re-encoding of parts of it.
 AkiReplaced(exts, pre) == [i \in DOMAIN exts |-> IF i = First(exts, "AKI") THEN [exts[i] EXCEPT !.val = pre.aki] ELSE exts[i]]
 \* code: the precertificate's AKI is deleted when the pre-issuer has none
 AkiDropped(exts) == Delete(exts, First(exts, "AKI"))
